@@ -145,7 +145,8 @@ class Runner:
                     agg["outcomes"]["BUDGET_CANDIDATE"] += 1
                 else:
                     agg["outcomes"]["HARNESS_" + rec["_harness"].upper()] += 1
-                    agg["harness"].append({"run": tag, "kind": rec["_harness"],
+                    agg["harness"].append({"run": tag, "kind": rec["_harness"], "signal": rec.get("signal"), "status": rec.get("status"),
+                                           "payload": str(payload)[:300],
                                            "info": (rec.get("error") or rec.get("stack") or "")[-1500:],
                                            "tb": rec.get("tb", "")[-1500:]})
                 return
@@ -218,6 +219,10 @@ class Runner:
                 viol_count[key] += 1
                 continue
             case = payload.get("case") or mod.gen_case(random.Random(payload["seed"]), self.tier)
+            if self.known.match(mod.ID, key[0], key[1]) is not None:
+                viol[key] = (tag, case, v)  # a listed finding: reported as KNOWN-FINDING below, no need to re-confirm it twice
+                viol_count[key] += 1
+                continue
             ok = 0
             for _ in range(2):
                 r = self.exec_cases([case], workers=1)[0]
